@@ -1097,7 +1097,8 @@ class PseudoNetCDFFile(PseudoNetCDFSelfReg, object):
         if dims is None:
             maskdims = getattr(where, 'dimensions', dims)
         else:
-            maskdims = dims
+            # compared with the dimension tuples of the variables below
+            maskdims = tuple(dims)
 
         coordkeys = self.getCoords()
         outf = self.copy(variables=False)
